@@ -447,11 +447,13 @@ def run(ctx):
     C.check_axioms(ctx)
     if ok:
         correspondence(ctx, ctx.scale(160, 2400), ctx.scale(30, 60))
+        from .. import histcorr
+        histcorr.correspondence(ctx, ctx.scale(16, 400), admissibility=False)    # the same, on recorded histories of real solve() runs
     else:
         ctx.oblige('correspondence:model-sequences', False, 'not run: generated model or its proofs did not build')
     sweep(ctx, ctx.scale(1600, 40000), ctx.scale(50, 200))
     return C.finish(ctx, 'proof',
-                    rule='correspondence: random operation sequences (change/sample/swap/add/shift/save, ties, NaN/inf, rejected indices, with and without L1 regulariser) on the generated functions evaluated in Coq vs the real Model, hash of the full state after every step; sweep: same generator on the unpatched Model against a shadow model; non-trivial = at least 5 operations',
+                    rule='correspondence: (a) random operation sequences (change/sample/swap/add/shift/save, ties, NaN/inf, rejected indices, with and without L1 regulariser) on the generated functions evaluated in Coq vs the real Model, hash of the full state after every step; (b) histories recorded at the Model boundary in real dfols.solve() runs (plain, growing, regression, soft/hard restarts, averaging; with bounds, scaling, L1 regulariser) replayed through the regenerated methods inside Coq, bit-exact; sweep: same generator on the unpatched Model against a shadow model; non-trivial = at least 5 operations',
                     trusted=TRUSTED, search=lambda c: sweep(c, 20000, 80))
 
 
